@@ -1941,3 +1941,131 @@ func (d *drv) degeneratePathStream() {
 		}
 	})
 }
+
+// ------------------------------------ (xii) free-form credential members of every kind
+// CredentialSubject / CredentialStatus are free-form JSON: ToCoreClaim, the VerifyProof
+// binding and ParseClaim read members out of them (id, type, revocationNonce ...).
+// Every JSON kind at each such member, under the standard contexts (where `id` is @id
+// and the JSON-LD processor rejects most of them first) and under a context in which
+// `id` is an ordinary term (safe mode on and off), with every position option.
+const plainIDContextURL = "https://c12.invalid/ctx/plain-id.jsonld"
+
+const plainIDContext = `{"@context":{"@version":1.1,"type":"@type","id":"urn:c12:vocab#id",
+ "VerifiableCredential":"https://www.w3.org/2018/credentials#VerifiableCredential",
+ "PlainCred":{"@id":"urn:c12:vocab#PlainCred","@context":{"@version":1.1,"name":"urn:c12:vocab#name","a":"urn:c12:vocab#a"}},
+ "credentialSubject":{"@id":"https://www.w3.org/2018/credentials#credentialSubject","@type":"@id"},
+ "issuer":{"@id":"https://www.w3.org/2018/credentials#issuer","@type":"@id"},
+ "issuanceDate":{"@id":"https://www.w3.org/2018/credentials#issuanceDate","@type":"http://www.w3.org/2001/XMLSchema#dateTime"},
+ "credentialStatus":{"@id":"https://www.w3.org/2018/credentials#credentialStatus","@type":"@id","@context":{"@version":1.1,"revocationNonce":"urn:c12:vocab#revocationNonce","SparseMerkleTreeProof":"urn:c12:vocab#SparseMerkleTreeProof"}},
+ "credentialSchema":{"@id":"https://www.w3.org/2018/credentials#credentialSchema","@type":"@id","@context":{"@version":1.1,"id":"@id","type":"@type","JsonSchema2023":"https://www.w3.org/ns/credentials#JsonSchema2023"}}}}`
+
+func (d *drv) hostileCredentialStream() {
+	_ = d.loader.Add(plainIDContextURL, []byte(plainIDContext))
+	subj := d.bundles[0].Cred["credentialSubject"].(map[string]any)["id"]
+	issuer := d.bundles[0].Cred["issuer"]
+	claim, _ := claimFromHex(str(asMap(d.bundles[0].Cred["proof"].([]any)[0]), "coreClaim"))
+	bases := map[string]func() map[string]any{
+		"standard": func() map[string]any {
+			c := cloneMap(d.bundles[0].Cred)
+			delete(c, "proof")
+			return c
+		},
+		"plain-id": func() map[string]any {
+			return map[string]any{
+				"@context": []any{plainIDContextURL}, "type": []any{"VerifiableCredential", "PlainCred"}, "issuer": issuer,
+				"issuanceDate":      "2023-12-21T16:35:46Z",
+				"credentialSchema":  map[string]any{"id": "https://c12.invalid/schema.json", "type": "JsonSchema2023"},
+				"credentialStatus":  map[string]any{"id": "urn:c12:status", "type": "SparseMerkleTreeProof", "revocationNonce": 7},
+				"credentialSubject": map[string]any{"id": subj, "type": "PlainCred", "name": "n"},
+			}
+		},
+	}
+	members := []jpath{{"credentialSubject", "id"}, {"credentialSubject", "type"}, {"credentialSubject"}, {"id"}, {"issuer"}, {"type"},
+		{"credentialStatus", "revocationNonce"}, {"credentialStatus", "id"}, {"credentialStatus", "type"}, {"credentialStatus"},
+		{"credentialSchema", "id"}, {"credentialSchema", "type"}, {"expirationDate"}, {"issuanceDate"}}
+	absent := struct{}{}
+	values := []any{123, -1, 1.5, true, false, nil, "", "x", "did:example:1", subj, map[string]any{"a": 1}, map[string]any{}, []any{1}, []any{}, []any{"did:x", 2},
+		json.Number("1e400"), json.Number("18446744073709551616"), absent}
+	type combo struct {
+		subjPos, mrPos string
+		safe           bool
+	}
+	combos := []combo{{"index", "", true}, {"value", "value", true}, {"", "index", false}, {"bogus", "", true}, {"index", "bogus", false}, {"value", "index", false}}
+	type hjob struct {
+		base string
+		m    jpath
+		v    any
+	}
+	var jobs []hjob
+	for b := range bases {
+		for _, m := range members {
+			for _, v := range values {
+				jobs = append(jobs, hjob{b, m, v})
+			}
+		}
+	}
+	parallel(len(jobs), func(i int) {
+		j := jobs[i]
+		cred := bases[j.base]()
+		if _, isAbsent := j.v.(struct{}); isAbsent {
+			jremove(cred, j.m)
+		} else {
+			if len(j.m) == 1 {
+				cred[j.m[0].(string)] = clone(j.v)
+			} else {
+				jset(cred, j.m, clone(j.v))
+			}
+		}
+		body := mustJSON2(cred)
+		var vc verifiable.W3CCredential
+		do := guard(watchdog, func() error { return json.Unmarshal(body, &vc) })
+		input := map[string]any{"stream": "hostile-credential", "context": j.base, "member": j.m.String(), "credential": json.RawMessage(body)}
+		d.mu.Lock()
+		d.rep.Evaluations++
+		d.rep.Count("hostile-credential:decode:" + do.Class)
+		d.rep.Distinct("hostile-credential:" + string(body))
+		d.mu.Unlock()
+		if do.Class == "panic" || do.Class == "hang" {
+			d.fail("json.Unmarshal(W3CCredential)", do, input)
+		}
+		if do.Class != "ok" {
+			return
+		}
+		for _, c := range combos {
+			c := c
+			mzOpts := []merklize.MerklizeOption{merklize.WithDocumentLoader(d.loader), merklize.WithSafeMode(c.safe)}
+			for name, f := range map[string]func() error{
+				"W3CCredential.ToCoreClaim": func() error {
+					cl, err := vc.ToCoreClaim(context.Background(), &verifiable.CoreClaimOptions{RevNonce: 7, SubjectPosition: c.subjPos,
+						MerklizedRootPosition: c.mrPos, MerklizerOpts: mzOpts})
+					if err == nil && cl == nil {
+						return fmt.Errorf("(nil, nil)")
+					}
+					return err
+				},
+				"json.Parser.ParseClaim": func() error {
+					_, err := jsonproc.Parser{}.ParseClaim(context.Background(), vc, &processor.CoreClaimOptions{RevNonce: 7, SubjectPosition: c.subjPos,
+						MerklizedRootPosition: c.mrPos, MerklizerOpts: mzOpts})
+					return err
+				},
+				"VerifyProof(binding)": func() error {
+					if claim == nil || c.subjPos != "index" {
+						return nil
+					}
+					return vc.VerifVerifyCoreClaim(context.Background(), claim, mzOpts)
+				},
+			} {
+				qo := guard(watchdog, f)
+				d.mu.Lock()
+				d.rep.Evaluations++
+				d.rep.Count("hostile-credential:" + name + ":" + qo.Class)
+				d.mu.Unlock()
+				if qo.Class == "panic" || qo.Class == "hang" {
+					in2 := map[string]any{"stream": "hostile-credential", "context": j.base, "member": j.m.String(), "credential": json.RawMessage(body),
+						"subject_position": c.subjPos, "merklized_root_position": c.mrPos, "safe_mode": c.safe}
+					d.fail(name, qo, in2)
+				}
+			}
+		}
+	})
+}
